@@ -170,14 +170,27 @@ func idleAfterForward(r *ev.Run) {
 			bad("forward-reply-bytes-altered", fmt.Sprintf("the relayed request after the slow one: err=%v, reply %q", err, resp))
 			return
 		}
+		// identities added through the shim with certificates of very long (finite) validity: added as they are, they
+		// are still there after the pause
+		now := uint64(time.Now().Unix())
+		longLived := 0
+		for i, vb := range []uint64{now + 1<<32 + 2, now + 1<<33, now + 1<<40, 1<<63 - 1} {
+			kk := gen.Pool()[5+i]
+			crt := gen.MakeCert(gen.CertSpec{Key: kk, KeyID: fmt.Sprintf("valid-until-%d", vb), ValidAfter: now - 600, ValidBefore: vb, Principals: []string{"u"}})
+			if err := s.Add(agent.AddedKey{PrivateKey: kk.Priv, Certificate: crt, Comment: "long-lived"}); err != nil {
+				bad("add-fails-without-fault", err.Error())
+				return
+			}
+			longLived++
+		}
 		time.Sleep(5600 * time.Millisecond)
 		if hung {
 			bad("operation-does-not-return", "")
 			return
 		}
 		l, err := s.List()
-		if err != nil || len(l) != 1 {
-			bad("list-fails-without-fault", fmt.Sprintf("5.6 s after the last relayed request: %d identities, err=%v", len(l), err))
+		if err != nil || len(l) != 1+longLived {
+			bad("list-fails-without-fault", fmt.Sprintf("5.6 s after the last relayed request and after %d identities with certificates valid for 2^32 s and more were added: %d identities listed (expected %d), err=%v", longLived, len(l), 1+longLived, err))
 			return
 		}
 		data := []byte("after the idle period")
